@@ -273,7 +273,7 @@ def buildCalls {α : Type} (A : Alg α) (funs : List Dag) : Nat → List (Mat α
     (fun _ _ => none)
 
 def matSubset (m z : Mat Itv) : Bool :=
-  m.r == z.r && m.c == z.c && (List.zip m.d z.d).all fun p => Itv.subset p.1 p.2
+  m.r == z.r && m.c == z.c && m.d.length == z.d.length && (List.zip m.d z.d).all fun p => Itv.subset p.1 p.2
 
 /-- Node-local certificate for a forward evaluation: `doms` are the node domains produced by the
     implementation for the box `box`.  Node `i` is accepted when the model's operator applied to
@@ -292,4 +292,35 @@ def certOk (funs : List Dag) (dag : Dag) (box : List Itv) (doms : Array (Mat Itv
   doms.size == dag.size && (certBad funs dag box doms).isEmpty
 
 end Eval
+end Ibex
+
+namespace Ibex
+/-- intervals with EXACT (unrounded, rational-bound) operators: the exact set-valued meaning of a
+    DAG whose constants may be thick intervals (constant folding through interval arithmetic) -/
+def Alg.itvX : Alg Itv where
+  ofItv x := itvNonEmpty x
+  zero := Itv.point 0
+  add a b := itvNonEmpty (Itv.addG Rnd.exact a b)
+  sub a b := itvNonEmpty (Itv.subG Rnd.exact a b)
+  mul a b := itvNonEmpty (Itv.mulG Rnd.exact a b)
+  div a b := itvNonEmpty (Itv.divG Rnd.exact a b)
+  max a b := itvNonEmpty (Itv.max a b)
+  min a b := itvNonEmpty (Itv.min a b)
+  un op := match op with
+    | "minus" => some fun a => itvNonEmpty (Itv.neg a)
+    | "sqr" => some fun a => itvNonEmpty (Itv.sqrG Rnd.exact a)
+    | "abs" => some fun a => itvNonEmpty (Itv.abs a)
+    | "sign" => some fun a => itvNonEmpty (Itv.sign a)
+    | "floor" => some fun a => itvNonEmpty (Itv.floor a)
+    | "ceil" => some fun a => itvNonEmpty (Itv.ceil a)
+    | _ => none
+  pow a n :=
+    if n ≥ 0 then itvNonEmpty (Itv.powNatG Rnd.exact a n.toNat)
+    else itvNonEmpty (Itv.divG Rnd.exact (Itv.point 1) (Itv.powNatG Rnd.exact a (-n).toNat))
+  chi a b c :=
+    match a with
+    | .empty => none
+    | .mk al ah =>
+      if Ext.le ah (.fin 0) then itvNonEmpty b else if Ext.lt (.fin 0) al then itvNonEmpty c
+      else itvNonEmpty (Itv.hull b c)
 end Ibex
